@@ -20,9 +20,12 @@ theorem py_orient_sensor_to : Py.orient_sensor_to.ok = false ∨
       rw [div_lt_iff₀ (by norm_num : (0 : ℝ) < 360)] at this
       intro h; linarith
     simp only [Py.orient_sensor_to, orientSample, degNorm, py_radians, cos_real, sin_real, ofNat_real, py_floordiv, ofInt_real', floor_real, lit_real]
-    norm_num
-    split_ifs with h
-    · exact absurd h hlt
-    · refine ⟨?_, ?_⟩ <;> first | rfl | (simp <;> ring_nf)
+    try norm_num
+    all_goals first
+      | (intro h; exact absurd h hlt)
+      | (split_ifs with h
+         · exact absurd h hlt
+         · refine ⟨?_, ?_⟩ <;> first | rfl | (simp <;> ring_nf))
+      | (refine ⟨?_, ?_⟩ <;> first | rfl | (intro h; exact absurd h hlt) | (simp <;> ring_nf))
 
 end HV.Bridge
